@@ -120,8 +120,8 @@ theorem Inv.aLockS {s : State} (hI : Inv s) {a : Actor} {f x : Nat} (hp : s.pc a
         rw [hp] at this; simp [Pc.locks] at this
       exact ⟨b, by simp [upd, hbf, h1], by simp [updA, hba, h2]⟩
   case freshHolder => inv_auto
-  case scanL0 => inv_auto
-  case unlockL0 => inv_auto
+  case scanL0 => unfold ScanL0 at *; inv_auto
+  case unlockL0 => unfold ScanL0 UnlockL0 at *; inv_auto
   case oScanOk => inv_auto
   case oNoneOk => inv_auto
   case aUnlockOk => inv_auto
@@ -246,8 +246,8 @@ theorem Inv.aLockN {s : State} (hI : Inv s) {a : Actor} {f : Nat} (hp : s.pc a =
         rw [hp] at this; simp [Pc.locks] at this
       exact ⟨b, by simp [upd, hbf, h1], by simp [updA, hba, h2]⟩
   case freshHolder => inv_auto
-  case scanL0 => inv_auto
-  case unlockL0 => inv_auto
+  case scanL0 => unfold ScanL0 at *; inv_auto
+  case unlockL0 => unfold ScanL0 UnlockL0 at *; inv_auto
   case oScanOk => inv_auto
   case oNoneOk => inv_auto
   case aUnlockOk =>
